@@ -237,6 +237,22 @@ def run_worker(case: dict) -> Outcome:
     return out
 
 
+@st.composite
+def long_period_case(draw):
+    """Periods of more than a day: only the RabbitMQ model can be simulated that far (its consumer does not poll)."""
+    p = draw(st.sampled_from([86400.0, 86400.0 * 1.5, 86400.0 * 2.5, 86400.0 * 7])) + draw(st.integers(0, 7200))
+    j = {"id": "rec", "actor": "a_plain", "queue": "q0", "retries": 0, "defer_by": p, "iterations": draw(st.integers(2, 3)),
+         "attempts": [{"k": "ret", "v": 1, "sleep": draw(st.sampled_from([0.0, 5.0, 3600.0]))}], "store_result": False,
+         "enqueue_at": draw(st.integers(0, 999)) / 1000}
+    if draw(st.booleans()):
+        j["defer_until"] = draw(st.sampled_from([0.5, 1.5, 3.25])) * 86400.0
+    case = {"broker": "amqp", "seed": draw(st.integers(0, 999)), "converter": "basic",
+            "actors": [{"name": "a_plain", "queue": "q0", "shape": "plain"}], "policy": {"kind": "table", "values": [0.0]},
+            "worker": {"tasks_limit": 1}, "jobs": [j], "lat": [], "monitor_poll": p / 40,
+            "horizon": (j.get("defer_until", 0.0) + p * (j["iterations"] + 2)) + 100.0, "max_steps": 400_000}
+    return case
+
+
 def _s(brokers):
     return lambda: recurring_case(brokers)
 
@@ -259,5 +275,6 @@ CHECK = Check(
         SubCheck("mem", _s(("mem",)), run_worker, quick=25, thorough=700),
         SubCheck("redis", _s(("redis",)), run_worker, quick=25, thorough=600),
         SubCheck("amqp", _s(("amqp",)), run_worker, quick=25, thorough=600),
+        SubCheck("amqp-long-period", long_period_case, run_worker, quick=12, thorough=400),
     ],
 )
